@@ -42,14 +42,19 @@ func (f *simFSM) Update(cmd []byte) interface{} {
 	defer f.mu.Unlock()
 	f.cmds = append(f.cmds, append([]byte{}, cmd...))
 	f.updates++
-	return len(f.cmds)
+	// a function of the command alone, so that the model can predict it (Node/Leader.v update_result)
+	r := uint64(len(cmd)) * 256
+	if len(cmd) > 0 {
+		r += uint64(cmd[0])
+	}
+	return r
 }
 
 func (f *simFSM) Read(cmd interface{}) interface{} {
 	f.mu.Lock()
 	defer f.mu.Unlock()
 	f.reads++
-	return len(f.cmds)
+	return nil
 }
 
 type simFSMState struct{ cmds [][]byte }
@@ -143,15 +148,16 @@ func simConn(input []byte) (*conn, *bytes.Buffer) {
 // ---- node ----
 
 type simNode struct {
-	r     *Raft
-	f     *follower
-	c     *candidate
-	l     *leader
-	fsm   *simFSM
-	dir   string
-	cur   State         // role whose init() ran last (the `state` variable of stateLoop)
-	abort chan struct{} // closed to make parked dials fail
-	dead  bool
+	r       *Raft
+	f       *follower
+	c       *candidate
+	l       *leader
+	fsm     *simFSM
+	dir     string
+	cur     State         // role whose init() ran last (the `state` variable of stateLoop)
+	abort   chan struct{} // closed to make parked dials fail
+	dead    bool
+	stopped bool // the node shut itself down (stateLoop returned)
 }
 
 var errSimAbort = errors.New("sim: dial aborted")
@@ -241,6 +247,15 @@ func (n *simNode) role() simRole {
 // settle mirrors the outer loop of stateLoop: when the role changed, stop the
 // timer, release the old role, init the new one.
 func (n *simNode) settle() {
+	if n.r.isClosed() && !n.stopped {
+		// stateLoop returns: the deferred release of the current role, then Raft.release
+		n.stopped = true
+		n.abortDials()
+		n.role().release()
+		n.r.release()
+		n.barrier()
+		return
+	}
 	for n.r.state != n.cur && !n.r.isClosed() {
 		n.r.timer.stop()
 		n.abortDials()
@@ -390,7 +405,7 @@ func coqOptRound(r *round) string {
 
 func (n *simNode) dumpLeader() string {
 	r, l := n.r, n.l
-	if n.cur != Leader {
+	if n.cur != Leader || n.stopped {
 		return "None"
 	}
 	var q []string
